@@ -30,7 +30,7 @@ NSHARDS = {"quick": 16, "thorough": 16}
 OPS = ["consume-random", "consume-numpy", "consume-torch", "reseed-random", "reseed-numpy", "reseed-torch", "other-config",
        "generate-other", "from_config-other", "generate-other-parallel", "tokenize-shuffling", "call-generator", "same-config-again"]
 THRESHOLDS = {"quick": {**{f"c04:op:{o}": 10 for o in OPS}, "c04:configs": 40, "c04:histories": 200, "c04:hashseeds": 3,
-                        "c04:from_config": 40, "c04:configs>=1000-mazes": 2, "c04:configs-dedup-then-cut": 8, "c04:from_config-with-filters": 15, "c04:cfg-unchanged-checked": 200,
+                        "c04:from_config": 40, "c04:verbose-runs": 60, "c04:configs>=1000-mazes": 2, "c04:configs-dedup-then-cut": 8, "c04:from_config-with-filters": 15, "c04:cfg-unchanged-checked": 200,
                         "c04:child-processes": 30, "c04:gen:gen_dfs": 1, "c04:gen:gen_wilson": 1, "c04:gen:gen_percolation": 1,
                         "c04:gen:gen_dfs_percolation": 1, "c04:gen:gen_prim": 1, "c04:trace:reseed-before-first-generator-entry": 100}}
 THRESHOLDS["thorough"] = {**THRESHOLDS["quick"], "c04:configs": 400, "c04:histories": 5000}
@@ -79,6 +79,13 @@ def make_specs(ctx, n):
             gen, kw, g, n_mazes, ek = ["gen_dfs", "gen_wilson", "gen_dfs"][i % 3], [{}, {}, dict(do_forks=False)][i % 3], [2, 2, 3][i % 3], int(rng.integers(14, 24)), {}
         specs.append(dict(key=f"cfg{i}", name=f"c04-{i}", gen=gen, kwargs=kw, grid_n=g, n_mazes=n_mazes, seed=seed,
                           endpoint_kwargs=ek, filters=FILTER_SETS[fi]))
+    # endpoint options under which start == end can be drawn, with length filters right at the one-cell / two-cell boundary
+    for t, (flt, ek) in enumerate([([dict(name="path_length", args=[2], kwargs={})], dict(deadend_start=True, deadend_end=True)),
+                                   ([dict(name="path_length", args=[], kwargs=dict(min_length=1))], dict(deadend_start=True, deadend_end=True)),
+                                   ([dict(name="start_end_distance", args=[1], kwargs={})], dict(allowed_start=[[0, 0], [1, 1]], allowed_end=[[0, 0], [1, 1]])),
+                                   ([dict(name="path_length", args=[2], kwargs={}), dict(name="truncate_count", args=[10], kwargs={})], dict(allowed_start=[[0, 0], [2, 2]], allowed_end=[[0, 0], [2, 2]]))]):
+        specs.append(dict(key=f"eq{t}", name=f"c04-eq{t}", gen=["gen_dfs", "gen_wilson"][t % 2], kwargs={}, grid_n=3, n_mazes=40, seed=21 + t,
+                          endpoint_kwargs=ek, filters=flt))
     # large datasets (the sizes from which other code paths - compact serialization, progress bars, pools - kick in)
     for t, (nm, gen, g) in enumerate([(1000, "gen_dfs", 2), (1200, "gen_dfs_percolation", 3)] if n <= 100 else
                                      [(1000, "gen_dfs", 2), (1200, "gen_dfs_percolation", 3), (1000, "gen_wilson", 2), (2500, "gen_dfs", 2), (999, "gen_dfs", 3), (1001, "gen_percolation", 2)]):
@@ -259,6 +266,25 @@ def run(ctx):
                 ctx.tally("c04:trace:global-rng-identical-at-entry")
             else:
                 ctx.tally("c04:trace:global-rng-differs-at-entry(not judged)")
+        # switches that are not part of the configuration (progress output) may not change what is generated
+        if spec["n_mazes"] <= 60:
+            import contextlib
+            import io
+
+            with warnings.catch_warnings():
+                warnings.simplefilter("ignore")
+                for how in ("generate(verbose=True)", "from_config(verbose=True)"):
+                    try:
+                        cfgv = c04_child.make_cfg(spec, with_filters=False)
+                        with contextlib.redirect_stdout(io.StringIO()), contextlib.redirect_stderr(io.StringIO()):
+                            dsv = MazeDataset.generate(cfgv, gen_parallel=False, verbose=True) if how.startswith("generate") else \
+                                MazeDataset.from_config(cfgv, load_local=False, save_local=False, do_download=False, verbose=True)
+                        sources[spec["key"]][f"in-process({how})"] = c04_child.digest_mazes(dsv.mazes)
+                        ctx.tally("c04:verbose-runs")
+                    except TypeError:
+                        ctx.tally("c04:verbose-switch-unavailable(not judged)")
+                    except Exception as e:  # noqa: BLE001
+                        sources[spec["key"]][f"in-process({how})"] = f"EXC:{type(e).__name__}:{str(e)[:200]}"
         # verdict for this config
         vals = sources[spec["key"]]
         groups: dict[str, list[str]] = {}
